@@ -331,6 +331,7 @@ def applyFilter (P : Prims) (auto : Bool) (f : FName) (v : Val) (args : List Val
        let sp := argS P sep
        if (match sep with | .str t => t.chars.isEmpty | _ => false) then .ok (.arr (s.chars.map fun c => ⟨[c], false⟩))
        else if s.chars.isEmpty || s.chars == sp.chars then .ok (.arr [])
+       else if sp.chars.isEmpty then .error .filter   -- `str.split("")` raises ValueError (an object whose `str()` is empty)
        else if sp.chars == [' '] then .ok (.arr ((splitWs s.chars).map fun p => ⟨p, s.safe⟩))
        else .ok (.arr ((splitOn sp.chars s.chars).map fun p => ⟨p, s.safe⟩)))
   | .strip_html, [] =>
@@ -740,5 +741,57 @@ def nodesOk : List Node → Bool
   | [] => true
   | n :: ns => n.ok && nodesOk ns
 end
+
+def Arg.okE : Arg → Bool
+  | .lit s => (isClean s && isEnt s)
+  | _ => true
+
+/-- filters for which "every `&` begins an entity" is *proved* to survive on safe values: they concatenate, escape, select whole
+items or return plain text. Not in the list: the entity-breaking `slice split remove* replace* upcase` (counter-examples in
+`Props/C05.lean`), and `downcase capitalize strip lstrip rstrip strip_html strip_newlines url_decode`, for which no
+counter-example exists but no proof was made. -/
+def FName.entFriendly : FName → Bool
+  | .append | .prepend | .escape | .escape_once | .join | .first | .last | .reverse | .concat | .default | .size
+  | .truncate | .truncatewords | .squish | .base64_encode | .base64_decode | .base64_url_safe_encode
+  | .base64_url_safe_decode | .url_encode | .escapejs => true
+  | _ => false
+
+def FCall.okE (f : FCall) : Bool := f.name.entFriendly && f.args.all Arg.okE
+
+def Cond.okE : Cond → Bool
+  | .truthy a => a.okE
+  | .eq a b => a.okE && b.okE
+  | .contains a b => a.okE && b.okE
+  | .not c => c.okE
+  | .and c d => c.okE && d.okE
+  | .or c d => c.okE && d.okE
+
+def Expr.okE : Expr → Bool
+  | .chain h fs => h.okE && fs.all FCall.okE
+  | .ternary h fs c alt tail =>
+    h.okE && fs.all FCall.okE && c.okE && (match alt with | some (a, afs) => a.okE && afs.all FCall.okE | none => true)
+      && tail.all FCall.okE
+
+def Piece.okE : Piece → Bool
+  | .text s => (isClean s && isEnt s)
+  | .var _ => true
+
+mutual
+def Node.okE : Node → Bool
+  | .text s => (isClean s && isEnt s)
+  | .output e => e.okE
+  | .assign _ e => e.okE
+  | .capture _ b => nodesOkE b
+  | .cycle args => args.all Arg.okE
+  | .for_ _ it b d => it.okE && nodesOkE b && nodesOkE d
+  | .if_ c t e => c.okE && nodesOkE t && nodesOkE e
+  | .include args b => args.all (fun p => p.2.okE) && nodesOkE b
+  | .render args b => args.all (fun p => p.2.okE) && nodesOkE b
+  | .translate args msg => args.all (fun p => p.2.okE) && msg.all Piece.okE
+def nodesOkE : List Node → Bool
+  | [] => true
+  | n :: ns => n.okE && nodesOkE ns
+end
+
 
 end LiquidVerif.Taint
